@@ -301,6 +301,93 @@ fn quiet_gap_pass(gap: Duration, burst: usize, close_order: usize, tag: &str) ->
     Ok(verdict)
 }
 
+/// One pass of the slow-client history: three clients on one server (transport and listen
+/// configuration given) that pause between requests and in the middle of a request for longer
+/// than any poll interval of the listen loop. Every client must get exactly its own three
+/// replies and no close. Ok(Err(description)) = a client was cut off or starved.
+fn slow_clients_pass(tr: Transport, idle_timeout: u64, with_stop_flag: bool, pauses: &[u64], tag: &str) -> Result<Result<usize, String>, String> {
+    let mut server = Server::start(standard_service(SvcCfg::default()), tr, ServerCfg { initial: 1, max: 200, idle_timeout, with_stop_flag })?;
+    server.wait_ready()?;
+    let address = server.address.clone();
+    let results: Vec<Result<usize, String>> = std::thread::scope(|sc| {
+        let hs: Vec<_> = pauses
+            .iter()
+            .enumerate()
+            .map(|(k, &pause)| {
+                let address = address.clone();
+                let tag = format!("{}k{}", tag, k);
+                sc.spawn(move || -> Result<usize, String> {
+                    let mut c = RawConn::connect(&address).map_err(|e| format!("connect: {}", e))?;
+                    // silent before its first request as well
+                    std::thread::sleep(Duration::from_millis(pause));
+                    let mut got = 0;
+                    for step in 0..3 {
+                        let tok = format!("{}s{}", tag, step);
+                        let b = Req::new(Kind::Echo, Flags { more: false, oneway: false }, &tok).to_bytes();
+                        if step == 1 {
+                            // pause inside the message
+                            let cut = b.len() / 2;
+                            c.write_all(&b[..cut]).map_err(|e| format!("client {} step {}: write failed: {}", k, step, e))?;
+                            std::thread::sleep(Duration::from_millis(pause));
+                            c.write_all(&b[cut..]).map_err(|e| format!("client {} step {} (pause of {} ms inside the message): write failed: {}", k, step, pause, e))?;
+                        } else {
+                            c.write_all(&b).map_err(|e| format!("client {} step {} (after a pause of {} ms): write failed: {}", k, step, pause, e))?;
+                        }
+                        match c.read_frame(Duration::from_secs(10)) {
+                            ReadEv::Frame(f) if String::from_utf8_lossy(&f).contains(&tok) => got += 1,
+                            ReadEv::Frame(f) => return Err(format!("client {} step {}: foreign or wrong reply {}", k, step, show(&f))),
+                            other => return Err(format!("client {} (pauses of {} ms) step {}: no reply: {:?}", k, pause, step, other)),
+                        }
+                        std::thread::sleep(Duration::from_millis(pause));
+                    }
+                    Ok(got)
+                })
+            })
+            .collect();
+        hs.into_iter().map(|h| h.join().unwrap_or_else(|_| Err("client thread panicked".into()))).collect()
+    });
+    let _ = server.stop();
+    let mut total = 0;
+    for r in results {
+        match r {
+            Ok(n) => total += n,
+            Err(m) => return Ok(Err(m)),
+        }
+    }
+    Ok(Ok(total))
+}
+
+/// Slow and idle clients under every listen configuration (stop flag and idle timeout change the
+/// loop's poll intervals) on unix and TCP; a cut-off is a violation when it repeats on a fresh
+/// server.
+fn slow_clients(ctx: &Ctx, tr: Transport, idle_timeout: u64, with_stop_flag: bool, tag: &str) {
+    let pauses = [130u64, 450, 1300, 2600];
+    let mut fails = Vec::new();
+    for attempt in 0..2 {
+        match slow_clients_pass(tr, idle_timeout, with_stop_flag, &pauses, &format!("{}a{}", tag, attempt)) {
+            Err(e) => {
+                ctx.inconclusive(json!({"slow_clients": e, "transport": format!("{:?}", tr)}));
+                return;
+            }
+            Ok(Ok(n)) => {
+                if attempt == 0 {
+                    ctx.case(Some(hash_of(&("slow-clients", format!("{:?}", tr), idle_timeout, with_stop_flag))));
+                    ctx.count("slow_client_histories", 1);
+                    ctx.count("reply_frames_observed", n as u64);
+                } else {
+                    ctx.inconclusive(json!({"slow_clients": "a slow client was cut off once but not on a fresh server", "first": fails}));
+                }
+                return;
+            }
+            Ok(Err(m)) => fails.push(m),
+        }
+    }
+    ctx.violation(
+        "c13:slow-client-cut-off-or-starved",
+        json!({"engine": "c13-slow-clients", "transport": format!("{:?}", tr), "idle_timeout": idle_timeout, "stop_flag_configured": with_stop_flag, "pauses_ms": pauses, "message": fails}),
+    );
+}
+
 /// Quiet periods are where timers in a pool (idle reaping, keep-alive) act; the random rounds
 /// never pause that long.  A shortfall is only a violation when it repeats on a second, fresh
 /// server; once is inconclusive.
@@ -401,13 +488,20 @@ pub fn main(ctx: &Ctx) -> i32 {
                 sc.spawn(move || quiet_gap(ctx, Duration::from_millis(g), 4, order, &format!("q{}o{}", i, order)));
             }
         }
+        // slow clients: transports x listen configurations (the configurations decide the poll
+        // intervals of the listen loop)
+        for (ti, tr) in [Transport::UnixPath, Transport::Tcp, Transport::UnixAbstract].into_iter().enumerate() {
+            for (ci, (idle, flag)) in [(0u64, true), (1, false), (3, true)].into_iter().enumerate() {
+                sc.spawn(move || slow_clients(ctx, tr, idle, flag, &format!("sl{}c{}", ti, ci)));
+            }
+        }
         main_rounds(ctx);
     });
     ctx.finish(ctx.tier.pick(20, 1000))
 }
 
 fn main_rounds(ctx: &Ctx) {
-    ctx.set_rule("2-64 simultaneous clients on unix and TCP against one listen() server (max_worker_threads 200), each pipelining a random token-tagged sequence at a random depth with random segmentation/delays, beside 0-8 misbehaving peers (idle, half a message, close mid-message, garbage, one byte every 2 ms, thousands of pipelined requests never read) that stay open until every well-behaved client is done; plus a hostile peer sending requests nested 200..2*10^6 deep beside 4 pipelining clients (server in a child process); plus quiet-period histories (burst of 4 simultaneous connections, closed in opening/reverse/rotated order, 1.1/2.6/5.5 s of silence (thorough: up to 61 s), then 4 connections opened one by one and left open, each of which must be answered beside the idle ones); distinct = (client count, transport, misbehaviour mix, observed completion order); non-trivial = >=2 clients overlapped in logical time");
+    ctx.set_rule("2-64 simultaneous clients on unix and TCP against one listen() server (max_worker_threads 200), each pipelining a random token-tagged sequence at a random depth with random segmentation/delays, beside 0-8 misbehaving peers (idle, half a message, close mid-message, garbage, one byte every 2 ms, thousands of pipelined requests never read) that stay open until every well-behaved client is done; plus a hostile peer sending requests nested 200..2*10^6 deep beside 4 pipelining clients (server in a child process); plus quiet-period histories (burst of 4 simultaneous connections, closed in opening/reverse/rotated order, 1.1/2.6/5.5 s of silence (thorough: up to 61 s), then 4 connections opened one by one and left open, each of which must be answered beside the idle ones); plus slow clients (pauses of 0.13-2.6 s before, between and inside requests) on unix, abstract and TCP under three listen configurations (stop flag; idle timeout 1 s; both), each of which must get exactly its own replies; distinct = (client count, transport, misbehaviour mix, observed completion order); non-trivial = >=2 clients overlapped in logical time");
     ctx.assume("tokens are globally unique (round, client, index), so a foreign byte is recognisable; OS schedules are sampled, not controlled");
     let rounds = ctx.tier.pick(120usize, 6000usize);
     for (ti, &tr) in [Transport::UnixPath, Transport::Tcp].iter().enumerate() {
@@ -479,6 +573,15 @@ pub fn replay(ctx: &Ctx, w: &Value) {
     if w.get("engine").and_then(|v| v.as_str()) == Some("c13-quiet-gap") {
         let g = w.get("gap_ms").and_then(|v| v.as_u64()).unwrap_or(2600);
         quiet_gap(ctx, Duration::from_millis(g), w.get("burst").and_then(|v| v.as_u64()).unwrap_or(4) as usize, w.get("close_order").and_then(|v| v.as_u64()).unwrap_or(1) as usize, "rp");
+        return;
+    }
+    if w.get("engine").and_then(|v| v.as_str()) == Some("c13-slow-clients") {
+        let tr = match w.get("transport").and_then(|v| v.as_str()) {
+            Some("Tcp") => Transport::Tcp,
+            Some("UnixAbstract") => Transport::UnixAbstract,
+            _ => Transport::UnixPath,
+        };
+        slow_clients(ctx, tr, w.get("idle_timeout").and_then(|v| v.as_u64()).unwrap_or(0), w.get("stop_flag_configured").and_then(|v| v.as_bool()).unwrap_or(true), "rp");
         return;
     }
     let mut server = Server::start(standard_service(SvcCfg { up: UpMode::Line, ..Default::default() }), Transport::UnixPath, ServerCfg { initial: 1, max: 200, idle_timeout: 0, with_stop_flag: true }).expect("server");
